@@ -397,42 +397,25 @@ theorem unionAll_agree {w : World} (h : CacheInv w) {s : Nat} (hs : s < w.nst) {
     · intro hr
       exact ⟨cf0.c, List.mem_map.mpr ⟨cf0, hcf0, rfl⟩, ((hag0 n).2 r h1 h2 h3).mpr hr⟩
 
-/-- loading one stack keeps the invariant; the view agrees with the database on every flavor the stack then
-holds — the needed flavors (native and fallback) among them — and holds entries of that stack only, all of them
-in the database -/
-theorem loadStack_inv {w : World} (h : CacheInv w) (u : User) (self : Flav) {s : Nat} (hs : s < w.nst) :
-    CacheInv (loadStack w u self s).w ∧
-    (∀ f ∈ (loadStack w u self s).flavs, AgreeOn (loadStack w u self s).view w.db s f) ∧
-    (∀ f ∈ needed self, f ∈ (loadStack w u self s).flavs) ∧
-    (∀ d ∈ (loadStack w u self s).view.decls, d.stack = s ∧ d ∈ w.db.decls) ∧
-    (∀ r ∈ (loadStack w u self s).view.tags, r.stack = s) := by
-  have hsnapsub : ∀ d ∈ (snapshot w.db s).decls, d.stack = s ∧ d ∈ w.db.decls := by
-    intro d hd
-    simp only [snapshot, List.mem_filter, beq_iff_eq] at hd
-    exact ⟨hd.2, hd.1⟩
-  have hreb : ∀ fs : List Flav, (∀ f ∈ needed self, f ∈ fs) →
-      CacheInv (saveAll u s (snapshot w.db s) fs w) ∧
-      (∀ f ∈ fs, AgreeOn (snapshot w.db s) w.db s f) ∧ (∀ f ∈ needed self, f ∈ fs) ∧
-      (∀ d ∈ (snapshot w.db s).decls, d.stack = s ∧ d ∈ w.db.decls) ∧
-      (∀ r ∈ (snapshot w.db s).tags, r.stack = s) := fun fs hfs =>
-    ⟨saveAll_inv u s _ fs h (fun f _ _ => snapshot_agree h.dbinv.nd s f),
-     fun f _ => snapshot_agree h.dbinv.nd s f, hfs, hsnapsub, (snapshot_stack w.db s).2⟩
-  have hneed : ∀ f ∈ needed self, f ∈ specFlavors (snapshot w.db s) ++
-      (needed self).filter (fun f => !(specFlavors (snapshot w.db s)).contains f) := by
-    intro f hf
-    by_cases hc : f ∈ specFlavors (snapshot w.db s)
-    · exact List.mem_append_left _ hc
-    · exact List.mem_append_right _ (List.mem_filter.mpr ⟨hf, by simpa using hc⟩)
-  unfold loadStack
-  dsimp only
-  split
-  · exact hreb _ hneed
+/-- an accepted cache directory: its view agrees with the database on every needed flavor and holds entries of
+that stack only, all of them in the database -/
+theorem tryCache_inv {w : World} (h : CacheInv w) (u : User) (self : Flav) {s : Nat} (hs : s < w.nst) {view : Spec}
+    (ht : tryCache w u self s = some view) :
+    (∀ f ∈ needed self, AgreeOn view w.db s f) ∧
+    (∀ d ∈ view.decls, d.stack = s ∧ d ∈ w.db.decls) ∧
+    (∀ r ∈ view.tags, r.stack = s) := by
+  unfold tryCache at ht
+  split at ht
+  · cases ht
   · rename_i cfs hfind
     obtain ⟨hmap, hmem⟩ := findCaches_some hfind
-    split
+    dsimp only at ht
+    split at ht
     · rename_i hacc
+      simp only [Option.some.injEq] at ht
+      subst ht
       simp only [Bool.and_eq_true, List.all_eq_true] at hacc
-      refine ⟨h, ?_, fun f hf => hf, ?_, ?_⟩
+      refine ⟨?_, ?_, ?_⟩
       · intro f hf
         exact unionAll_agree h hs hmem hacc.1 f (hmap ▸ hf)
       · intro d hd
@@ -447,7 +430,38 @@ theorem loadStack_inv {w : World} (h : CacheInv w) (u : User) (self : Flav) {s :
         obtain ⟨cf, hcf, rfl⟩ := List.mem_map.mp hc
         obtain ⟨hconf, _⟩ := h.wf cf (hmem cf hcf).1 ((hmem cf hcf).2 ▸ hs)
         exact (hconf.2 r hrc).1.trans (hmem cf hcf).2
-    · exact hreb _ hneed
+    · cases ht
+
+/-- loading one stack keeps the invariant; the view agrees with the database on every flavor the stack then
+holds — the needed flavors (native and fallback) among them — and holds entries of that stack only, all of them
+in the database -/
+theorem loadStack_inv {w : World} (h : CacheInv w) (u : User) (self : Flav) {s : Nat} (hs : s < w.nst) :
+    CacheInv (loadStack w u self s).w ∧
+    (∀ f ∈ (loadStack w u self s).flavs, AgreeOn (loadStack w u self s).view w.db s f) ∧
+    (∀ f ∈ needed self, f ∈ (loadStack w u self s).flavs) ∧
+    (∀ d ∈ (loadStack w u self s).view.decls, d.stack = s ∧ d ∈ w.db.decls) ∧
+    (∀ r ∈ (loadStack w u self s).view.tags, r.stack = s) := by
+  have hsnapsub : ∀ d ∈ (snapshot w.db s).decls, d.stack = s ∧ d ∈ w.db.decls := by
+    intro d hd
+    simp only [snapshot, List.mem_filter, beq_iff_eq] at hd
+    exact ⟨hd.2, hd.1⟩
+  have hneed : ∀ f ∈ needed self, f ∈ specFlavors (snapshot w.db s) ++
+      (needed self).filter (fun f => !(specFlavors (snapshot w.db s)).contains f) := by
+    intro f hf
+    by_cases hc : f ∈ specFlavors (snapshot w.db s)
+    · exact List.mem_append_left _ hc
+    · exact List.mem_append_right _ (List.mem_filter.mpr ⟨hf, by simpa using hc⟩)
+  unfold loadStack
+  split
+  · rename_i view ht
+    obtain ⟨h1, h2, h3⟩ := tryCache_inv h u self hs ht
+    exact ⟨h, h1, fun f hf => hf, h2, h3⟩
+  · split
+    · rename_i view ht
+      obtain ⟨h1, h2, h3⟩ := tryCache_inv h sysUser self hs ht
+      exact ⟨h, h1, fun f hf => hf, h2, h3⟩
+    · exact ⟨saveAll_inv u s _ _ h (fun f _ _ => snapshot_agree h.dbinv.nd s f),
+        fun f _ => snapshot_agree h.dbinv.nd s f, hneed, hsnapsub, (snapshot_stack w.db s).2⟩
 
 /-- the in-memory stacks agree with the database on every flavor each stack of the path holds -/
 def ViewInv (nst : Nat) (held : Nat → List Flav) (m db : Spec) : Prop :=
@@ -771,14 +785,24 @@ theorem rmCache_inv {w : World} (h : CacheInv w) (u : User) (s : Nat) (f : Flav)
 
 /-- **Every command of a history keeps the invariant**: any user, any flavor, killed after any `Database`
 mutation or not, and cache deletions. -/
+theorem clearCache_inv {w : World} (h : CacheInv w) (u : User) :
+    CacheInv { w with caches := w.caches.filter fun x => x.user != u } := by
+  have hsub : ∀ cf ∈ w.caches.filter (fun x => x.user != u), cf ∈ w.caches := by
+    intro cf hcf; exact (List.mem_filter.mp hcf).1
+  exact ⟨h.dbinv, fun cf hcf => h.cache_time cf (hsub cf hcf), h.touch_time, h.touch_alive,
+    fun cf hcf => h.fresh cf (hsub cf hcf), fun cf hcf => h.wf cf (hsub cf hcf)⟩
+
 theorem step_inv {w : World} (h : CacheInv w) (c : WCmd) : CacheInv (step w c) := by
   cases c with
   | rmCache u s f => exact rmCache_inv h u s f
-  | clearCache u =>
-    have hsub : ∀ cf ∈ w.caches.filter (fun x => x.user != u), cf ∈ w.caches := by
-      intro cf hcf; exact (List.mem_filter.mp hcf).1
-    exact ⟨h.dbinv, fun cf hcf => h.cache_time cf (hsub cf hcf), h.touch_time, h.touch_alive,
-      fun cf hcf => h.fresh cf (hsub cf hcf), fun cf hcf => h.wf cf (hsub cf hcf)⟩
+  | clearCache u => exact clearCache_inv h u
+  | envRmDir d => exact ⟨h.dbinv, h.cache_time, h.touch_time, h.touch_alive, h.fresh, h.wf⟩
+  | adminBuild u self =>
+    simp only [step, stepG]
+    have h1 := (load_inv (clearCache_inv h u) sysUser self).1
+    generalize load { w with caches := w.caches.filter fun x => x.user != u } sysUser self = l at h1
+    obtain ⟨m, fl, w1⟩ := l
+    exact h1
   | run u c crash =>
     simp only [step, stepG]
     obtain ⟨h1, hv, _, _⟩ := load_inv h u c.self
@@ -813,6 +837,8 @@ theorem step_nst (w : World) (c : WCmd) : (step w c).nst = w.nst := by
   cases c with
   | rmCache u s f => rfl
   | clearCache u => rfl
+  | envRmDir d => rfl
+  | adminBuild u self => exact (step_adminBuild_db true w u self).2.2.1
   | run u c crash =>
     simp only [step, stepG]
     obtain ⟨_, _, hnst⟩ := load_db w u c.self
@@ -985,6 +1011,10 @@ theorem stepG_db_trace (w : World) (h : DbInv w.db) (c : WCmd) :
   cases c with
   | rmCache u s f => rfl
   | clearCache u => rfl
+  | envRmDir d => rfl
+  | adminBuild u self =>
+    obtain ⟨h1, _, _, _, _, h6⟩ := step_adminBuild_db true w u self
+    rw [h1, h6]; rfl
   | run u c crash =>
     simp only [stepG]
     obtain ⟨hdb, _, _⟩ := load_db w u c.self
